@@ -1,38 +1,76 @@
 --------------------------- MODULE Trace_Geometry ---------------------------
-(* C07 / C20 conformance: each line is one mke2fs invocation {cfg, rc, observed geometry read from the image by an
-   independent superblock parser, e2fsck -fn status, writes issued by `mke2fs -n`, reproducibility flag, verdict of the
-   independent consistency oracle}.  An ACCEPTED configuration (rc = 0) must have exactly the geometry
-   Geometry!Compute predicts, backups at exactly BgHasSuper, must check clean, and -n must not have written.       *)
+(* C07 / C20 conformance: each line is one mke2fs invocation {cfg, req (option families that land in one plain field), rc,
+   observed geometry read from the image by an independent parser (superblock, backup copies, s_backup_bgs, the raw block
+   map of the resize inode, root / journal inode fields), e2fsck -fn status, writes issued by `mke2fs -n`, reproducibility
+   flag, verdict of the independent consistency oracle}.  An ACCEPTED configuration (rc = 0) must have exactly the geometry
+   Geometry!Compute predicts, backups at exactly BgHasSuper, a resize inode that maps every reserved GDT block and lists
+   every backup copy, the requested field values, must check clean, and -n must not have written.                       *)
 EXTENDS Geometry, Json, IOUtils
 VARIABLE l
 Tr == ndJsonDeserialize(IOEnv.TRACE)
 ToSet(q) == {q[i] : i \in 1..Len(q)}
 CfgOf(r) == [bs |-> r.bs, blocks |-> r.blocks, iratio |-> r.iratio, isz |-> r.isz, bpg |-> r.bpg, resize |-> r.resize = 1,
-             sparse |-> r.sparse = 1, ss2 |-> r.ss2 = 1, metabg |-> r.metabg = 1, is64 |-> r.is64 = 1, ninodes |-> r.ninodes]
-GeoMatches(o, g) ==
+             sparse |-> r.sparse = 1, ss2 |-> r.ss2 = 1, metabg |-> r.metabg = 1, is64 |-> r.is64 = 1, ninodes |-> r.ninodes,
+             nbsb |-> r.nbsb, rszto |-> r.rszto, dev |-> FALSE]
+\* the recorder logs the double-indirect block as runs <<first slot, first block, length>> and each list as <<position, distance>>
+DindSet(q) == UNION {{<<q[i][1] + k, q[i][2] + k>> : k \in 0..(q[i][3] - 1)} : i \in 1..Len(q)}
+PairSet(q) == {<<q[i][1], q[i][2]>> : i \in 1..Len(q)}
+ResizeInodeMatches(bs, z, g) ==
+   IF g.resize
+   THEN /\ z.dindblk # 0 /\ z.other = 0                                              \* only the double-indirect pointer is used
+        /\ DindSet(z.dind) = ResizeDindMap(bs, g)                                   \* every reserved GDT block mapped, nothing else
+        /\ \A i \in 1..Len(z.lists) : PairSet(z.lists[i].ents) = ResizeBackupList(g)   \* each lists exactly the backup copies, in order
+        /\ (g.rsv > 0 => Len(z.lists) = 1 /\ z.lists[1].n = g.rsv)
+        /\ z.iblocks = ResizeIBlocks(bs, g)
+   ELSE z.dindblk = 0 /\ z.other = 0 /\ z.dind = <<>> /\ z.iblocks = 0
+GeoMatches(bs, o, g) ==
    /\ g.err = ""
    /\ o.blocks = g.blocks /\ o.first = g.first /\ o.bpg = g.bpg /\ o.ipg = g.ipg /\ o.itb = g.itb
    /\ o.rsv = g.rsv /\ o.inodes = g.inodes /\ o.gdc = g.gdc
    /\ (o.metabg = 1) = g.metabg
+   /\ ("resize_inode" \in ToSet(o.features)) = g.resize
+   /\ o.bgs = g.bgs                                                  \* sparse_super2 slots as ext2fs_initialize leaves them
    /\ ToSet(o.backups) = g.backups                                   \* C20: backups exactly where the format prescribes
+   /\ ResizeInodeMatches(bs, o.rsz, g)
+\* option families whose effect is one plain field (all accepted lines, modelled geometry or not)
+Requested(r) ==
+   LET o == r.obs  q == r.req  F == ToSet(o.features)  W == ToSet(r.want_features) IN
+   /\ o.stride = q.stride /\ o.stripe = q.stripe
+   /\ o.logflex = ReqLogFlex("flex_bg" \in F, q.flex)
+   /\ ReqRBlocksOK(q.mpct, r.cfg.blocks, o.blocks, o.rblocks, o.bpg # (IF r.cfg.bpg # 0 THEN r.cfg.bpg ELSE Min(r.cfg.bs * 8, 65528)))
+   /\ ToSet(o.quota) = ReqQuota("quota" \in W, "project" \in W, ToSet(q.quota))
+   /\ (q.uid >= 0 => o.uid = q.uid /\ o.gid = q.gid)
+   /\ ("has_journal" \in F => o.jblocks = ReqJournalBlocks(q.jmib, r.cfg.bs, o.blocks))
+   /\ (r.journal_skipped = 1 => o.blocks < 2048)                     \* the journal may only be dropped below ext2fs_default_journal_size's minimum
 \* features mke2fs documents dropping: the journal (and what depends on it) when the filesystem is too small for one
 \* (it says so on stderr), resize_inode when the reserved GDT does not fit and meta_bg is switched on instead
 Tolerated(r) == (IF r.journal_skipped = 1 THEN {"has_journal", "orphan_file"} ELSE {})
                 \cup (IF r.model = 1 /\ Compute(CfgOf(r.cfg)).err = "" /\ Compute(CfgOf(r.cfg)).metabg THEN {"resize_inode"} ELSE {})
                 \cup (IF r.model = 0 THEN {"resize_inode"} ELSE {})
 Accepted(r) ==
-   /\ (r.model = 1 => GeoMatches(r.obs, Compute(CfgOf(r.cfg))))
+   /\ (r.model = 1 => GeoMatches(r.cfg.bs, r.obs, Compute(CfgOf(r.cfg))))
+   /\ Requested(r)
    /\ r.obs.backups_badcsum = <<>>                                   \* every superblock copy (primary and backups) carries a valid checksum
    /\ r.fsck = 0                                                     \* e2fsck -fn exits 0
    /\ r.consistent # 0                                               \* independent oracle: 1 = consistent, -1 = not evaluated
    /\ r.nwrites = 0                                                  \* mke2fs -n wrote nothing
    /\ r.repro = 1                                                    \* same inputs, same bytes
    /\ (ToSet(r.want_features) \ Tolerated(r)) \subseteq ToSet(r.obs.features)   \* requested features are on
+\* Known deviation of the code (Geometry!Body, c.dev): the line shows exactly the literal behaviour.  Only the second pass
+\* (Trace_Geometry_dev.cfg, run on the lines the strict pass refused) uses it; such a line is reported under the key of the finding.
+DevCfg(r) == [CfgOf(r.cfg) EXCEPT !.dev = TRUE]
+KnownDev(r) == /\ r.model = 1 /\ Compute(DevCfg(r)) # Compute(CfgOf(r.cfg))
+               /\ GeoMatches(r.cfg.bs, r.obs, Compute(DevCfg(r)))
+               /\ Requested(r) /\ r.obs.backups_badcsum = <<>> /\ r.nwrites = 0 /\ r.repro = 1
 \* lines are independent of one another: a failing line is reported (BADLINE) and the scan goes on
 TMke == /\ l <= Len(Tr) /\ Tr[l].e = "mke2fs"
         /\ (IF Tr[l].rc = 0 /\ ~Accepted(Tr[l]) THEN PrintT(<<"BADLINE", l>>) ELSE TRUE)
         /\ l' = l + 1
+TMkeDev == /\ l <= Len(Tr) /\ Tr[l].e = "mke2fs"
+           /\ (IF Tr[l].rc = 0 /\ ~Accepted(Tr[l]) /\ ~KnownDev(Tr[l]) THEN PrintT(<<"BADLINE", l>>) ELSE TRUE)
+           /\ l' = l + 1
 TraceInit == l = 1
 TraceSpec == TraceInit /\ [][TMke]_l
+TraceSpecDev == TraceInit /\ [][TMkeDev]_l
 TraceAccepted == TLCGet("stats").diameter - 1 = Len(Tr)
 =============================================================================
